@@ -367,6 +367,7 @@ def run(rep, tier, seed, only=None):
     rep.bounds = {"symbolic lines": "labels of 1..7 symbolic identifier characters ([A-Za-z0-9_], each character a z3 integer), operands 1..2 characters, every operator name with symbolic letter case, 4 spacings; INPUT/OUTPUT declarations; vdd alias; constants; comments of <=6 arbitrary printable characters",
                   "round trip / denotation": "feature family + seeded circuits <=4 inputs/<=8 gates, relabelled from a keyword-heavy alphabet, shuffled storage; 3 (quick) / 6 (thorough) textual layouts each"}
     rep.outside = ["whitespace-only lines, CRLF, duplicate definitions", "constants carrying operands (not expressible in the text format)", "labels longer than 7 characters in the symbolic part"]
+    rep.bounds['histories'] = 'every round trip repeated right after a text that is rejected mid-stream; same path written and loaded twice'
     rep.rule = "cases = symbolic line templates (paths explored with proven coverage) + circuits through format/parse + textual layouts"
     rep.explanation = ("(a) every path of the real line parser over symbolic text is explored and z3 decides per path that the recorded gate equals what the text denotes; "
                        "(b,c) parsed circuits compared structurally / by z3 with the reference denotation")
